@@ -17,6 +17,9 @@ Ties
   X  circumstances  (circumstance_ties; helpers in harness/u2_util.py) the simulated stock / the refusal must not
                  depend on observers (repr / str / ToString at every stage), DEBUG logging, `python -O`, the command
                  line, other models of the process, or on what the caller does with the dictionary / list he handed in.
+  V  custom lists  (custom_list_ties; families in harness/v2_util.py) ref_bem_vector / ref_sch_vector in orders that do not
+                 pair up, by every hand-over route: refused or realised as given; custom archetypes with documented
+                 attributes at values no shipped archetype has (incl. a BEMDef that arrives with a share).
 Oracles (the properties themselves, evaluated on the implementation's results, independent of
 the Lean model) and a split-stock 1-day simulation complete the check.
 """
@@ -1890,6 +1893,15 @@ def replay(chk, path, focus='C07'):
         else:
             res = impl_synthetic(kit, cs)
         msg = oracle_c07(cs, res) if focus == 'C07' else oracle_c08(cs, res, cs['tie'] != 'C')
+    elif 'custom_archetype' in case or 'ref_bem_vector (type, era, marker)' in case:
+        # fifth-round families (fixed member lists): re-run them
+        if focus == 'C08':
+            from props import c08
+            c08.custom_attribute_cities(chk, plain)
+        else:
+            custom_list_ties(chk, plain)
+        if chk.violations:
+            msg = chk.violations[0]['observed']
     elif any(k.startswith('customs') for k in case) and 'zone' in case:
         # live ties (identity structure / schedule pairing): their members are fixed lists, re-run them
         if 'pattern' in case:
@@ -1909,6 +1921,25 @@ def replay(chk, path, focus='C07'):
     return 0
 
 
+# ------------------------------------------------------------------------------- fifth round (harness/v2_util.py)
+def custom_list_ties(chk, plain):
+    """(1) lists whose ORDER carries meaning: ref_bem_vector and ref_sch_vector are paired position by position, and
+    the rows that new types get in the two reference matrices are numbered by first appearance in EACH list - a
+    validation that compares the lists as sorted multisets accepts what cannot be realised as given;
+    (2) custom archetypes whose documented attributes have values that no shipped archetype has (pitched roof, green
+    facade, water film, a BEMDef that arrives with a share from an earlier model)."""
+    import v2_util as V
+    n, bad, br = V.pairing_ties(chk, plain)
+    chk.direct('custom-lists-order(ref_bem_vector vs ref_sch_vector: refused or realised as given)', n, n, V.PAIRING_RULE,
+               mismatches=bad, branches=br)
+    n, bad, br = V.attribute_cities(chk, plain, 'C07')
+    chk.direct('stock-with-custom-archetypes(documented Element / BEMDef attributes at non-default values)', n, n,
+               V.ATTRIBUTE_RULE + ': one simulated archetype per distinct (type, era) of the stock with the summed share (a share '
+               'the BEMDef brought along does not count), shares summing to one, BEM[k] with the plant of the archetype '
+               'supplied and Sch[k] - value for value - the schedule set supplied for its type and era', mismatches=bad,
+               branches=br)
+
+
 def run(chk, focus='C07', module=MODULE, theorems=THEOREMS):
     early = circumstance_start(chk) if focus == 'C07' else None
     chk.proof(module, theorems)
@@ -1925,6 +1956,7 @@ def run(chk, focus='C07', module=MODULE, theorems=THEOREMS):
         split_stock_runs(chk, ses.plain)
         identity_ties(chk, ses.plain)
         era_schedule_runs(chk, ses.plain)
+        custom_list_ties(chk, ses.plain)
         circumstance_ties(chk, ses.plain, early)
     report(chk, ses, focus)
     chk.assumptions.append(
